@@ -30,6 +30,9 @@ pub struct Job {
     /// how the worker consumes the iterator: next | size_hint_next | collect |
     /// extend | count | fold | last | for_each | nth
     pub consumer: String,
+    /// evaluators the same worker thread touches *before* the one it drains:
+    /// (scenario, scope, number of next() calls before it is dropped)
+    pub prelude: Vec<(Scenario, Option<(Pos, Pos)>, u32)>,
 }
 
 pub const CONSUMERS: [&str; 13] = ["next", "size_hint_next", "collect", "extend", "count", "fold", "last", "for_each", "nth", "count_by_value", "last_by_value", "fold_by_value", "collect_by_value"];
@@ -43,6 +46,7 @@ impl Job {
             "scope": self.scope.map(|(f,t)| vec![f.0,f.1,t.0,t.1]),
             "stack": self.stack,
             "consumer": self.consumer,
+            "prelude": self.prelude.iter().map(|(sc, scope, k)| json!({"scenario": sc.to_json(), "scope": scope.map(|(f,t)| vec![f.0,f.1,t.0,t.1]), "take": k})).collect::<Vec<_>>(),
         })
     }
     pub fn from_json(v: &Value) -> Result<Job, String> {
@@ -60,6 +64,24 @@ impl Job {
             scope,
             stack: v["stack"].as_u64().unwrap_or(MIB2 as u64) as usize,
             consumer: v["consumer"].as_str().unwrap_or("next").to_string(),
+            prelude: v["prelude"]
+                .as_array()
+                .map(|a| {
+                    a.iter()
+                        .filter_map(|p| {
+                            let sc = Scenario::from_json(&p["scenario"]).ok()?;
+                            let scope = match p["scope"].as_array() {
+                                Some(q) if q.len() == 4 => {
+                                    let g = |i: usize| q[i].as_u64().unwrap_or(0) as u8;
+                                    Some(((g(0), g(1)), (g(2), g(3))))
+                                }
+                                _ => None,
+                            };
+                            Some((sc, scope, p["take"].as_u64().unwrap_or(1) as u32))
+                        })
+                        .collect()
+                })
+                .unwrap_or_default(),
         })
     }
     pub fn positions(&self) -> u64 {
@@ -119,6 +141,23 @@ pub fn child_main() -> i32 {
             .name("worker".into())
             .stack_size(job.stack)
             .spawn(move || {
+                // earlier evaluators on this very thread, abandoned part-way
+                for (pi, (psc, pscope, take)) in j2.prelude.iter().enumerate() {
+                    let pr = psc.build_ranges();
+                    let pscopes: Vec<(Pos, Pos)> = pscope.iter().cloned().collect();
+                    match Stepper::new(&psc.flop, &pr, &pscopes) {
+                        Ok(mut p) => {
+                            for _ in 0..*take {
+                                match p.step_raw() {
+                                    Ok(Some(_)) => {}
+                                    Ok(None) => break,
+                                    Err(m) => return (0u64, 0u64, format!("panic:prelude {pi}: {m}")),
+                                }
+                            }
+                        }
+                        Err(m) => return (0u64, 0u64, format!("panic:prelude {pi} construct: {m}")),
+                    }
+                }
                 let scopes: Vec<(Pos, Pos)> = j2.scope.into_iter().collect();
                 let mut st = match Stepper::new(&j2.scen.flop, &ranges, &scopes) {
                     Ok(s) => s,
@@ -472,7 +511,7 @@ pub fn gen_jobs(vs: u64, tier: &str, profile: &str) -> Vec<Job> {
     let mut jobs: Vec<Job> = vec![];
     let mut push = |class: &str, scen: Scenario, scope: Option<(Pos, Pos)>, jobs: &mut Vec<Job>| {
         let id = jobs.len();
-        jobs.push(Job { id, class: class.to_string(), scen, scope, stack: MIB2, consumer: "next".to_string() });
+        jobs.push(Job { id, class: class.to_string(), scen, scope, stack: MIB2, consumer: "next".to_string(), prelude: vec![] });
     };
     // (i) long blocked runs: a narrow range on the first deck cards beside a wide one
     for &k in &[50usize, 100, 255, 256, 400, 1326] {
@@ -673,10 +712,42 @@ pub fn gen_jobs(vs: u64, tier: &str, profile: &str) -> Vec<Job> {
                 }
                 for c in CONSUMERS.iter() {
                     let id = jobs.len();
-                    jobs.push(Job { id, class: "consumer_styles".to_string(), scen: scen.clone(), scope: sc, stack: MIB2, consumer: c.to_string() });
+                    jobs.push(Job { id, class: "consumer_styles".to_string(), scen: scen.clone(), scope: sc, stack: MIB2, consumer: c.to_string(), prelude: vec![] });
                 }
             }
         }
+    }
+    // several evaluators on one worker thread: earlier ones (other flops) are
+    // peeked at and abandoned, then one is drained; its players hold cards of
+    // the earlier flops (state a change might keep per thread must not leak)
+    let nseq = if quick { 24 } else { 300 };
+    for _ in 0..nseq {
+        let f1 = gen_flop(&mut rng);
+        let mut prelude = vec![];
+        for _ in 0..rng.range(1, 3) {
+            let pf = if prelude.is_empty() { f1 } else { gen_flop(&mut rng) };
+            let psc = Scenario { flop: pf, players: vec![RangeRecipe::simple(sized_range(&mut rng, 2)), RangeRecipe::simple(sized_range(&mut rng, 1))] };
+            let take = *rng.pick(&[1u32, 1, 2, 3, 7, 40]);
+            let pscope = if rng.chance(1, 3) { Some((pos_from_index(rng.usize_below(NPOS - 1)), TERMINAL)) } else { None };
+            prelude.push((psc, pscope, take));
+        }
+        let f2 = loop {
+            let f = gen_flop(&mut rng);
+            if f.iter().all(|c| !f1.contains(c)) {
+                break f;
+            }
+        };
+        // a player made of the first flop's cards, another random
+        let mut from_f1 = vec![(f1[0].min(f1[1]), f1[0].max(f1[1]), w1())];
+        if rng.chance(1, 2) {
+            from_f1.push((f1[1].min(f1[2]), f1[1].max(f1[2]), w1()));
+        }
+        let other = sized_range(&mut rng, 2);
+        let players = if rng.chance(1, 2) { vec![RangeRecipe::simple(from_f1), RangeRecipe::simple(other)] } else { vec![RangeRecipe::simple(other), RangeRecipe::simple(from_f1)] };
+        let scen = Scenario { flop: f2, players };
+        let scope = if rng.chance(2, 3) { None } else { Some((pos_from_index(rng.usize_below(40)), TERMINAL)) };
+        let id = jobs.len();
+        jobs.push(Job { id, class: "sequence_on_one_worker".to_string(), scen, scope, stack: MIB2, consumer: "next".to_string(), prelude });
     }
     // a random consumer for the cheap jobs of the other classes
     for j in jobs.iter_mut() {
@@ -772,6 +843,18 @@ fn minimise(profile: &str, job: &Job, okey: &str, watchdog: Duration) -> (Job, u
                 }
             }
         }
+        // fewer / shorter earlier evaluators
+        let mut pi = 0;
+        while pi < best.prelude.len() {
+            let mut c = best.clone();
+            c.prelude.remove(pi);
+            if fails(&c, &mut tried) {
+                best = c;
+                progress = true;
+                continue;
+            }
+            pi += 1;
+        }
         // simplest consumer
         if best.consumer != "next" {
             let mut c = best.clone();
@@ -804,6 +887,10 @@ fn job_key(j: &Job) -> String {
     let mut f = Fold::new();
     f.add_str(&j.scen.to_json().to_string());
     f.add_str(&j.consumer);
+    for (sc, _, k) in &j.prelude {
+        f.add_str(&sc.to_json().to_string());
+        f.add(*k as u64);
+    }
     if let Some((a, b)) = j.scope {
         f.add(pos_index(a) as u64);
         f.add(pos_index(b) as u64);
@@ -956,8 +1043,9 @@ pub fn run(tier: &str) -> i32 {
             oracle: okey.clone(),
             key: format!("{okey}:{}", job_key(&min)),
             detail: format!(
-                "[{profile}] consumer={} {} scope {} ({} odometer states): {} — {} of this tier's {profile} runs fail this way",
+                "[{profile}] consumer={}{} {} scope {} ({} odometer states): {} — {} of this tier's {profile} runs fail this way",
                 min.consumer,
+                if min.prelude.is_empty() { String::new() } else { format!(" after {} earlier evaluator(s) on the same thread [{}]", min.prelude.len(), min.prelude.iter().map(|(sc, _, k)| format!("{} x{k}", sc.short())).collect::<Vec<_>>().join("; ")) },
                 min.scen.short(),
                 min.scope.map(|(f, t)| format!("{}..{}", pos_str(f), pos_str(t))).unwrap_or("full".into()),
                 min.states(),
@@ -981,7 +1069,7 @@ pub fn run(tier: &str) -> i32 {
             let mut smallest_pass: Option<usize> = None;
             for kib in [2048usize, 1024, 256, 64] {
                 let sc = bounded_scope(scen.product(), if profile == "dev" { 60_000 } else { 600_000 }, FIRST);
-                let job = Job { id: 0, class: "ladder".into(), scen: scen.clone(), scope: sc, stack: kib * 1024, consumer: "next".into() };
+                let job = Job { id: 0, class: "ladder".into(), scen: scen.clone(), scope: sc, stack: kib * 1024, consumer: "next".into(), prelude: vec![] };
                 match run_jobs(profile, std::slice::from_ref(&job), watchdog) {
                     Ok(rs) if rs.first().map(|r| r.outcome == "end").unwrap_or(false) => smallest_pass = Some(kib),
                     _ => break,
